@@ -316,7 +316,7 @@ impl<'ast, 'res> Resolver<'ast, 'res> {
             Stmt::If { cond, then_b, else_b, .. } => {
                 self.check_expr(cond);
                 self.check_boolean_expr(cond);
-                self.set_stmt_expr_class(self.classify_expr(cond));
+                self.set_stmt_expr_class(self.classify_condition(cond));
                 self.check_block(then_b);
                 // Else block is optional in the grammar
                 if let Some(eb) = else_b {
@@ -327,7 +327,11 @@ impl<'ast, 'res> Resolver<'ast, 'res> {
             Stmt::Loop { cond, body, .. } => {
                 self.check_expr(cond);
                 self.check_boolean_expr(cond);
-                self.set_stmt_expr_class(self.classify_expr(cond));
+                // A loop may also never end: a statement that calls a function containing
+                // one is not skipped on the strength of its value being unused.
+                self.set_stmt_expr_class(
+                    self.classify_condition(cond).join(ExprClass::PureMayTrap),
+                );
                 self.in_loop += 1;
                 self.check_block(body);
                 self.in_loop -= 1;
@@ -1231,7 +1235,7 @@ impl<'ast, 'res> Resolver<'ast, 'res> {
             }
             Expr::Unary { op, expr, .. } => {
                 let class = self.classify_expr(expr);
-                let fits = match (op, self.infer_expr_type(expr)) {
+                let fits = match (op, self.stable_expr_type(expr)) {
                     (UnaryOp::Not, Some(ValueType::Bool | ValueType::Null))
                     | (UnaryOp::Minus, Some(ValueType::Number)) => true,
                     _ => false,
@@ -1249,6 +1253,14 @@ impl<'ast, 'res> Resolver<'ast, 'res> {
                     Expr::Var(func_name, ..) => {
                         if let Some(builtin) = GlobalBuiltin::from_name(func_name) {
                             class = class.join(effects::global_builtin_class(builtin));
+                            // `command` only takes a string, whatever the checker accepted.
+                            if builtin == GlobalBuiltin::Command
+                                && !args.args.iter().all(|arg| {
+                                    self.stable_expr_type(arg) == Some(ValueType::String)
+                                })
+                            {
+                                class = class.join(ExprClass::PureMayTrap);
+                            }
                         } else if self.lookup_func(func_name).is_none() {
                             class = class.join(ExprClass::Impure);
                         }
@@ -1258,7 +1270,7 @@ impl<'ast, 'res> Resolver<'ast, 'res> {
                         // The method may not exist for the receiver's run-time type, and
                         // arguments are only checked against the method's parameter types
                         // when it is evaluated (`"abc".find(5)` is accepted here).
-                        if self.has_runtime_type(object) || !args.args.is_empty() {
+                        if self.stable_expr_type(object).is_none() || !args.args.is_empty() {
                             class = class.join(ExprClass::PureMayTrap);
                         }
                         if let Some(builtin) = MemberBuiltin::from_name(field) {
@@ -1280,7 +1292,79 @@ impl<'ast, 'res> Resolver<'ast, 'res> {
             .is_some_and(|(_, local)| self.facts.locals[local.0 as usize].owner != self.current_owner)
     }
 
-    /// True when the static operand types are a pair the evaluator accepts for `op` whatever
+    /// A condition must evaluate to a boolean (or null); anything else ends the program
+    /// with a type mismatch when the statement is reached.
+    fn classify_condition(&self, cond: ExprRef<'ast>) -> ExprClass {
+        let class = self.classify_expr(cond);
+        if matches!(self.stable_expr_type(cond), Some(ValueType::Bool | ValueType::Null)) {
+            class
+        } else {
+            class.join(ExprClass::PureMayTrap)
+        }
+    }
+
+    /// The type `expr` is certain to have whenever it evaluates. Unlike `infer_expr_type`
+    /// this does not trust the declared type of a variable (a variable can be assigned a
+    /// value of another type, directly or through a copy), an element, or the inferred
+    /// return type of a user function (inferred before bodies are checked, from `return`
+    /// statements only): what decides whether a statement may be skipped must hold at run
+    /// time, not only where the checker looked.
+    fn stable_expr_type(&self, expr: ExprRef<'ast>) -> Option<ValueType> {
+        use ValueType::{Bool, Null, Number, String};
+        match expr {
+            Expr::Number(..) => Some(Number),
+            Expr::Null(..) => Some(Null),
+            Expr::String { .. } => Some(String),
+            Expr::Bool(..) => Some(Bool),
+            Expr::Array { .. } => Some(ValueType::Array),
+            Expr::Var(..) | Expr::Index { .. } | Expr::Member { .. } => None,
+            Expr::Binary { op, lhs, rhs, .. } => {
+                let l = self.stable_expr_type(lhs)?;
+                let r = self.stable_expr_type(rhs)?;
+                match op {
+                    BinaryOp::Add => match (l, r) {
+                        (Number, Number) => Some(Number),
+                        (Number | String, Number | String) => Some(String),
+                        _ => None,
+                    },
+                    BinaryOp::Minus | BinaryOp::Times | BinaryOp::Divide | BinaryOp::Mod => {
+                        matches!((l, r), (Number, Number)).then_some(Number)
+                    }
+                    BinaryOp::Eq | BinaryOp::Gt | BinaryOp::Lt => matches!(
+                        (l, r),
+                        (Number, Number) | (String, String) | (Bool, Bool) | (Null, _) | (_, Null)
+                    )
+                    .then_some(Bool),
+                    BinaryOp::And | BinaryOp::Or => {
+                        matches!((l, r), (Bool | Null, Bool | Null)).then_some(Bool)
+                    }
+                }
+            }
+            Expr::Unary { op, expr, .. } => match (op, self.stable_expr_type(expr)?) {
+                (UnaryOp::Not, Bool | Null) => Some(Bool),
+                (UnaryOp::Minus, Number) => Some(Number),
+                _ => None,
+            },
+            Expr::Call { callee, .. } => match callee {
+                Expr::Var(func_name, ..) => match GlobalBuiltin::from_name(func_name)? {
+                    GlobalBuiltin::TypeOf | GlobalBuiltin::ToString => Some(String),
+                    _ => None,
+                },
+                Expr::Member { object, field, .. } => {
+                    let return_type = match self.stable_expr_type(object)? {
+                        String => StringBuiltin::from_name(field)?.return_type(),
+                        ValueType::Array => ArrayBuiltin::from_name(field)?.return_type(),
+                        Number => NumberBuiltin::from_name(field)?.return_type(),
+                        _ => return None,
+                    };
+                    (return_type != ValueType::Dynamic).then_some(return_type)
+                }
+                _ => None,
+            },
+        }
+    }
+
+    /// True when the operand types are a pair the evaluator accepts for `op` whatever
     /// the values are.
     fn binary_operands_always_fit(
         &self,
@@ -1289,7 +1373,7 @@ impl<'ast, 'res> Resolver<'ast, 'res> {
         rhs: ExprRef<'ast>,
     ) -> bool {
         use ValueType::{Bool, Null, Number, String};
-        let (Some(l), Some(r)) = (self.infer_expr_type(lhs), self.infer_expr_type(rhs)) else {
+        let (Some(l), Some(r)) = (self.stable_expr_type(lhs), self.stable_expr_type(rhs)) else {
             return false;
         };
         match op {
@@ -1303,11 +1387,6 @@ impl<'ast, 'res> Resolver<'ast, 'res> {
             ),
             BinaryOp::And | BinaryOp::Or => matches!((l, r), (Bool | Null, Bool | Null)),
         }
-    }
-
-    /// True when the static type says nothing about the value the expression has at run time.
-    fn has_runtime_type(&self, expr: ExprRef<'ast>) -> bool {
-        matches!(self.infer_expr_type(expr), Some(ValueType::Dynamic) | None)
     }
 
     #[inline]
